@@ -63,10 +63,12 @@ theorem pll126_nearest (f : Int) (h0 : 0 ≤ f) (h1 : f < 4096000000) :
 
 /-- the generated SX127x conversions in closed form -/
 theorem pll127_closed (f : Int) (h0 : 0 ≤ f) (h1 : f ≤ 4294967295) :
-    freq_to_pll_step f = some (f * 524288 / 32000000) := by
+    freq_to_pll_step f = some ((f * 524288 + 16000000) / 32000000) := by
   unfold freq_to_pll_step
   rw [shlC_u64_19 h0 h1]
   simp only [Option.bind_eq_bind, Option.bind_some]
+  rw [ck_u64 (by omega) (by omega)]
+  simp only [Option.bind_some]
   rw [divC_pos (by omega) (by omega), ck_u64 (by omega) (by omega)]
   simp only [Option.bind_some, Option.pure_def]
   rw [wrap_id_u32 (by omega) (by omega)]
@@ -78,23 +80,24 @@ theorem pllback127_closed (p : Int) (h0 : 0 ≤ p) (h1 : p ≤ 70368744) :
   simp only [Option.bind_eq_bind, Option.bind_some, shrC_u64_19, Option.pure_def]
   rw [wrap_id_u32 (by omega) (by omega)]
 
-/-- **SX127x frequency.** For every `u32` frequency the word is the last synthesiser step not above
-the request (`0 ≤ f·2^19 − pll·32·10^6 < 32·10^6`, i.e. less than one 61.04 Hz step below), it is
-the datasheet value, converting it back never exceeds the request and loses at most 62 Hz, and for
-every frequency below 1.024 GHz it fits the 24-bit register and the three bytes `set_channel`
-writes reassemble to it. -/
-theorem pll127_below (f : Int) (h0 : 0 ≤ f) (h1 : f ≤ 4294967295) :
+/-- **SX127x frequency.** For every `u32` frequency the conversion does not overflow and the word is
+the synthesiser step *nearest* to the request (`2·|f·2^19 − pll·32·10^6| ≤ 32·10^6`: error at most
+half a 61.04 Hz step, hence well under the 62 Hz the property allows); it is the reference
+driver's value; converting it back lands within 31 Hz of the request; and for every frequency
+below 1.024 GHz it fits the 24-bit register and the three bytes `set_channel` writes reassemble
+to it. -/
+theorem pll127_nearest (f : Int) (h0 : 0 ≤ f) (h1 : f ≤ 4294967295) :
     ∃ p, freq_to_pll_step f = some p ∧
-      0 ≤ f * 2 ^ 19 - p * 32000000 ∧ f * 2 ^ 19 - p * 32000000 < 32000000 ∧ p = sx127xPll f ∧
-      (∃ g, pll_step_to_freq p = some g ∧ g ≤ f ∧ f - g ≤ 62) ∧
-      (f < 1024000000 → Sx127xBelow f p ∧ sx127xSetChannel f = some p) := by
-  refine ⟨f * 524288 / 32000000, pll127_closed f h0 h1, by omega, by omega, by unfold sx127xPll; omega, ?_, ?_⟩
-  · refine ⟨(f * 524288 / 32000000) * 32000000 / 524288, pllback127_closed _ (by omega) (by omega), by omega, by omega⟩
+      2 * (f * 2 ^ 19 - p * 32000000).natAbs ≤ 32000000 ∧ p = sx127xPll f ∧
+      (∃ g, pll_step_to_freq p = some g ∧ f - 31 ≤ g ∧ g ≤ f + 30) ∧
+      (f < 1023999969 → Sx127xNearest f p ∧ Sx127xWithinStep f p ∧ sx127xSetChannel f = some p) := by
+  refine ⟨(f * 524288 + 16000000) / 32000000, pll127_closed f h0 h1, by omega, by unfold sx127xPll; omega, ?_, ?_⟩
+  · refine ⟨((f * 524288 + 16000000) / 32000000) * 32000000 / 524288, pllback127_closed _ (by omega) (by omega), by omega, by omega⟩
   · intro hf
-    refine ⟨by unfold Sx127xBelow; omega, ?_⟩
+    refine ⟨by unfold Sx127xNearest; omega, by unfold Sx127xWithinStep; omega, ?_⟩
     unfold sx127xSetChannel
     rw [pll127_closed f h0 h1]
-    generalize hp : f * 524288 / 32000000 = p
+    generalize hp : (f * 524288 + 16000000) / 32000000 = p
     have hp0 : 0 ≤ p := by omega
     have hp1 : p < 16777216 := by omega
     simp only [Option.bind_eq_bind, Option.bind_some, shrC_u32_16, shrC_u32_8, Option.pure_def]
@@ -594,6 +597,7 @@ theorem rssi127 (c : Chip) (raw frf : Int) (hc : c = .sx1272 ∨ c = .sx1276)
 example : Sx126x.convert_freq_in_hz_to_pll_step 868100000 = some 910268826 := by decide
 example : sx126xSetChannel 868100000 = some 910268826 := by decide
 example : freq_to_pll_step 868100000 = some 14222950 ∧ pll_step_to_freq 14222950 = some 868099975 := by decide
+example : freq_to_pll_step 867700000 = some 0xD8ECCD := by decide
 example : sx127xSetChannel 433175000 = some 7097139 := by decide
 example : sx126xSetTxPower .sx1262 true 14 (some 868100000) = .ok (2, 2, 0, 22) := by decide
 example : sx126xSetTxPower .stm32wl true 14 (some 868100000) = .ok (2, 2, 0, 14) := by decide
@@ -612,7 +616,7 @@ example : sx127xPktStatus .sx1276 0xE8 60 14222950 = some (-99, -6) := by decide
 end C17
 
 #print axioms C17.pll126_nearest
-#print axioms C17.pll127_below
+#print axioms C17.pll127_nearest
 #print axioms C17.pa126
 #print axioms C17.pa1276
 #print axioms C17.pa1272
